@@ -7,7 +7,9 @@
 (* Canonical form (the steps of one gap commute unless they touch the same *)
 (* point): at most one step per point and gap, points in increasing order; *)
 (* "time passes" may come anywhere.  With PlainFirst the first run is a    *)
-(* plain update run (it only fills the cache).                             *)
+(* plain update run (it only fills the cache).  The export uses            *)
+(* Ticks = {FALSE}: a replayed run takes some 50 ms; the replayer accepts   *)
+(* surviving LastAttempt records when a run did cross a second boundary.    *)
 EXTENDS Cleanup, Sequences, Json
 
 CONSTANTS PlainFirst,   \* BOOLEAN
@@ -26,10 +28,11 @@ StoredSet(st) ==
 (* Did this run's cleanup have anything to decide?  Something removable, or *)
 (* something that is kept although this run did not use it.                 *)
 Stake ==
-  \/ \E k \in Keys : pre.st[k].st = "ok" /\ (Expired(k[1], pre.st[k].v) \/ k[1] \notin listed \/ home[k[1]] # k[2])
-  \/ \E k \in Keys : pre.st[k].st = "att" /\ ~pre.st[k].fresh
-  \/ pre.cp \ touched # {}
-  \/ pre.ar \ touchedN # {}
+  LET visited(k) == cfg.kind = "update" /\ ~cfg.corrupt /\ k[1] \in listed /\ home[k[1]] = k[2]
+  IN \/ \E k \in Keys : pre.st[k].st = "ok" /\ (Expired(k[1], pre.st[k].v) \/ ~visited(k))
+     \/ \E k \in Keys : pre.st[k].st = "att" /\ ~pre.st[k].fresh
+     \/ pre.cp \ (touched \cup {"m0"}) # {}
+     \/ pre.ar \ touchedN # {}
 
 Rec ==
   [env |-> acts,
@@ -53,7 +56,7 @@ GEnv ==
 
 GStart == \E c \in RunConfigs :
             /\ (PlainFirst /\ runs = 0) => (c.kind = "update" /\ ~c.dirty /\ c.down = {} /\ c.rdown = {} /\ ~c.corrupt)
-            /\ StartRun(c.kind, c.dirty, c.down, c.rdown, c.corrupt)
+            /\ StartRun(c.kind, c.dirty, c.down, c.rdown, c.corrupt, c.tick)
 
 GNext ==
   \/ GEnv /\ UNCHANGED h
